@@ -53,6 +53,11 @@ fn main() {
             }
             let sql_text = to_sql(&q);
             let o = observe(&mut db, &sql_text);
+            if is_timeout(&o) {
+                // the executor's own 300 s statement timeout: no observation
+                sum.count("skipped:query-timeout");
+                continue;
+            }
             sum.evaluations += 1;
             let mut feats = Vec::new();
             features(&q, &mut feats);
